@@ -1,6 +1,8 @@
 /* C17 H-1: alphabet of KSI_base32Decode.  A string of LEN characters; the character at position POS is a fully
- * symbolic byte (all 256 values), the others are symbolic symbols of the RFC 4648 alphabet (5-bit value ->
- * character, upper case).  Reference (RFC 4648 / publication string format):
+ * symbolic byte (all 256 values), the others are the concrete alphabet characters of PATTERN (mixed letters and
+ * digits; they have to be concrete: every symbolic character is a possible '=' / '-' / foreign byte for CBMC's
+ * symbolic execution, the decoded bit count becomes symbolic and 13 such characters already time out).
+ * Reference (RFC 4648 / publication string format):
  *   byte is a letter or '2'..'7'  -> accepted, contributes exactly its 5-bit value
  *   '-'                            -> accepted, skipped (group separator)
  *   '=' or NUL                     -> accepted, the data ends here (padding / end of string)
@@ -25,15 +27,19 @@
 #ifndef POS
 #define POS 3
 #endif
+#ifndef PATTERN
+#define PATTERN "M7xW2ybAQ5dzLK36"
+#endif
 #define OUTMAX ((LEN * 5) / 8)
 
 void harness(void) {
 	VERIF_ctx_init();
 	char s[LEN + 1];
 	u8 val[LEN];
+	static const char pattern[] = PATTERN;
 	for (unsigned i = 0; i < LEN; i++) {
-		val[i] = ND(u8, sym); ASSUME(val[i] < 32);
-		s[i] = c17_sym_char(val[i]);
+		s[i] = pattern[i % (sizeof(pattern) - 1)];
+		val[i] = (u8)c17_sym_value((unsigned char)s[i]);
 	}
 	s[LEN] = 0;
 	u8 c = ND(u8, c);
